@@ -214,7 +214,8 @@ qb_log_real_va_(struct qb_log_callsite *cs, va_list ap)
 	char *str = buf;
 	va_list ap_copy;
 
-	if (qb_atomic_int_compare_and_exchange(&in_logger, QB_FALSE, QB_TRUE) == QB_FALSE || cs == NULL) {
+	if (cs == NULL ||
+	    qb_atomic_int_compare_and_exchange(&in_logger, QB_FALSE, QB_TRUE) == QB_FALSE) {
 		return;
 	}
 
@@ -232,6 +233,7 @@ qb_log_real_va_(struct qb_log_callsite *cs, va_list ap)
 	if (max_line_length > QB_LOG_MAX_LEN) {
 		str = malloc(max_line_length);
 		if (!str) {
+			qb_atomic_int_set(&in_logger, QB_FALSE);
 			return;
 		}
 	}
